@@ -202,6 +202,10 @@ class Unit:
                 tl[i:i + 1] = open(inc).read().split('\n')
                 continue
             if s.startswith('//@cut'):
+                # module-level consts a restructured function turned out to need (vrun._find_consts)
+                for cpath, cname in getattr(self, 'extra_consts', []):
+                    self.do_cut('const', cpath, cname, {}, [])
+                self.extra_consts = []
                 parts = s.split()
                 kind, path, item = parts[1], parts[2], parts[3]
                 opts = dict(p.split('=', 1) for p in parts[4:])
